@@ -8,6 +8,8 @@ import Dashu.Proofs.Int.MulCompose
 import Dashu.Proofs.Int.PowCompose
 import Dashu.Proofs.Int.PowBuf
 import Dashu.Proofs.Int.PowFull
+import Dashu.Proofs.Int.Scratch
+import Dashu.Proofs.Int.MulPrim
 /-
   C01 — Integer ring arithmetic is exact for every operand size and sign.
 
@@ -861,6 +863,99 @@ theorem i_mul_agrees_with_generated_glue (W : Nat) (hW : 4 ≤ W) (a b : SRepr)
   rw [(ibigMul_spec W hW a b ha hb).1,
     Dashu.Props.GenInt.ibig_mul_exact _ _ _ _ (Int.natCast_nonneg _) (Int.natCast_nonneg _),
     signOf_apply, signOf_apply]
+
+-- ====================================================================== word-multiplication primitives (math.rs)
+
+/-- **`math::mul_add_carry_dword`** (the four word multiplications behind `mul_dword_spilled`, `square_dword_spilled`
+    and the first step of `pow_dword_base`, mirrored and executed by the driver): exactly the low and the high
+    double word of `lhs·rhs + carry`, for all naturals -/
+theorem mul_add_carry_dword_exact (W lhs rhs carry : Nat) :
+    mulAddCarryDword W lhs rhs carry
+      = ((lhs * rhs + carry) % 2 ^ (2 * W), (lhs * rhs + carry) / 2 ^ (2 * W)) :=
+  mulAddCarryDword_eq W lhs rhs carry
+
+/-- "This operation will not overflow" (`mul_add_carry`, `mul_add_2carry`): on word operands the double-word
+    expression `extend_word(a)·extend_word(b) + carries` stays below `B²` -/
+theorem mul_add_carry_no_overflow (B a b c0 c1 : Nat) (ha : a < B) (hb : b < B) (h0 : c0 < B) (h1 : c1 < B) :
+    a * b + c0 < B * B ∧ a * b + c0 + c1 < B * B :=
+  ⟨mulAddCarry_fits B a b c0 ha hb h0, mulAdd2Carry_fits B a b c0 c1 ha hb h0 h1⟩
+
+example : mulAddCarryDword 64 (2^128 - 1) (2^128 - 1) (2^128 - 1) = (0, 2^128 - 1) := by decide +kernel
+
+-- ====================================================================== Tie A: scratch formulas and buffer sizes
+
+open Dashu.Gen.Scratch in
+/-- **The scratch formulas of the model are the ones in /repo** (`Dashu.Gen.Scratch` is regenerated from
+    `mul/{mod,karatsuba,toom_3}.rs`, `sqr/mod.rs` on every run; `math::ceil_log2` is instantiated by `ceilLog2`,
+    which is the regenerated `MathHelpers.ceil_log2` wherever that does not panic) -/
+theorem scratch_formulas_regenerated (total n : Nat) :
+    karatsubaMemReq n = karatsuba_memory_requirement_up_to ceilLog2 n ∧
+    toom3MemReq n = toom_3_memory_requirement_up_to ceilLog2 n ∧
+    mulMemReq n = mul_memory_requirement_up_to ceilLog2 total n ∧
+    mulMemReq n = mul_memory_requirement_exact ceilLog2 total n ∧
+    sqrMemReq n = sqr_memory_requirement_exact ceilLog2 n ∧
+    (∀ bits, n < 2 ^ bits → n ≠ 0 → Dashu.Gen.MathHelpers.ceil_log2 bits n = some (ceilLog2 n)) :=
+  ⟨rfl, rfl, rfl, rfl, rfl, fun bits h h0 => ceilLog2_eq_gen bits n h h0⟩
+
+open Dashu.Gen.Scratch in
+/-- **`mul_large` / `square_large` with the REGENERATED requirement as the size of their `MemoryAllocation`**:
+    no `Memory::allocate_slice_*` of `mul::multiply` / `sqr::sqr` (chunk splitting, Karatsuba, Toom-3, recursively) can
+    hit "internal error: not enough memory allocated", for all operand lengths -/
+theorem mul_sqr_scratch_sufficient_regenerated (l r : Nat) :
+    memAddSignedMul (l + r) l r (mul_memory_requirement_exact ceilLog2 (l + r) (min l r)) = .ok () ∧
+    memSqr l (sqr_memory_requirement_exact ceilLog2 l) = .ok () :=
+  ⟨memMulLarge_gen_ok l r, memSquareLarge_gen_ok l⟩
+
+open Dashu.Gen.Scratch in
+/-- callers that pass a sub-chunk (division, gcd, modular multiplication): the regenerated
+    `mul::memory_requirement_up_to(_, min(a, b))` words are enough for `mul::add_signed_mul` on `a` and `b` words -/
+theorem add_signed_mul_scratch_sufficient_regenerated (fuel a b total avail : Nat)
+    (h : mul_memory_requirement_up_to ceilLog2 total (min a b) ≤ avail) :
+    memAddSignedMul fuel a b avail = .ok () :=
+  memAddSignedMul_gen_ok fuel a b total avail h
+
+open Dashu.Gen.Scratch in
+/-- **`pow_word_base`'s three arms and the buffer / scratch sizes of `pow_word_base`, `pow_dword_base` are the
+    regenerated ones**: the value-level mirror takes `base^exp` (one word) iff the regenerated split says 0, the
+    double-word product iff 1, the buffer loop iff 2; `Buffer::allocate(e + 1)` / `allocate(2·exp)` and the scratch
+    layouts of `powWordBaseBuf` / `powDwordBaseBuf` are `pow_*_buffer_words` / `pow_*_scratch_words` -/
+theorem pow_split_and_sizes_regenerated (W base exp : Nat) (hb : 2 < base) (hp : isPow2 base = false) :
+    ((pow_word_base_path exp (maxExpInWord W base).1 = 0 ↔ exp < (maxExpInWord W base).1) ∧
+     (pow_word_base_path exp (maxExpInWord W base).1 = 1 ↔
+        (maxExpInWord W base).1 ≤ exp ∧ exp < 2 * (maxExpInWord W base).1) ∧
+     (pow_word_base_path exp (maxExpInWord W base).1 = 2 ↔ 2 * (maxExpInWord W base).1 ≤ exp)) ∧
+    (pow_word_base_path exp (maxExpInWord W base).1 = 0 → powWordBase W base exp = base ^ exp) ∧
+    (pow_word_base_path exp (maxExpInWord W base).1 = 1 →
+      powWordBase W base exp = (maxExpInWord W base).2 * base ^ (exp - (maxExpInWord W base).1)) ∧
+    (exp + 1 = pow_word_base_buffer_words exp ∧
+     (exp / 2 + 1) + sqrMemReq (exp / 2 + 1) = pow_word_base_scratch_words ceilLog2 exp ∧
+     2 * exp = pow_dword_base_buffer_words exp ∧
+     exp + sqrMemReq exp = pow_dword_base_scratch_words ceilLog2 exp) :=
+  ⟨pow_word_base_path_spec exp _, (powWordBase_by_path W base exp hb hp).1,
+   (powWordBase_by_path W base exp hb hp).2.1, powBuf_sizes_eq_gen exp⟩
+
+example : isPow2 10 = false ∧ Dashu.Gen.Scratch.pow_word_base_path 25 (maxExpInWord 64 10).1 = 1 := by decide
+
+open Dashu.Gen.Scratch in
+/-- the same regenerated formulas are what C02's division-memory model and C17's ledger model carry by hand
+    (`div::memory_requirement_exact` under its own `assert!`, `root::memory_requirement_sqrt_rem`, the `shl_large`
+    capacity guard with its `shift_words`, `shl_large_ref`'s allocation) — proved here so that those models are tied to
+    /repo without being edited -/
+theorem other_models_scratch_formulas_regenerated (la lb n cap rhs W : Nat) :
+    (div_memory_requirement_exact_asserts la lb = true →
+      Div.divMemReq la lb = .ok (div_memory_requirement_exact ceilLog2 la lb)) ∧
+    (div_memory_requirement_exact_asserts la lb = false → ∃ k, Div.divMemReq la lb = .error k) ∧
+    Mem.mulScratchWords n = mul_memory_requirement_up_to ceilLog2 la n ∧
+    Mem.sqrScratchWords Dashu.Gen.sqr_MAX_LEN_SIMPLE n = sqr_memory_requirement_exact ceilLog2 n ∧
+    Mem.divScratchWords la lb = div_memory_requirement_exact ceilLog2 la lb ∧
+    Mem.sqrtScratchWords Dashu.Gen.sqr_MAX_LEN_SIMPLE n = root_memory_requirement_sqrt_rem ceilLog2 n ∧
+    (decide (cap < la + rhs / W + 1) = shl_large_takes_ref_path cap la (shl_large_shift_words W rhs)) ∧
+    rhs / W + la + 1 = shl_large_ref_buffer_words (shl_large_shift_words W rhs) la ∧
+    (n / 2 + 1) + Mem.sqrScratchWords Dashu.Gen.sqr_MAX_LEN_SIMPLE (n / 2 + 1) = pow_word_base_scratch_words ceilLog2 n ∧
+    n + Mem.sqrScratchWords Dashu.Gen.sqr_MAX_LEN_SIMPLE n = pow_dword_base_scratch_words ceilLog2 n :=
+  ⟨(divMemReq_eq_gen la lb).1, (divMemReq_eq_gen la lb).2, mulScratchWords_eq_gen la n, sqrScratchWords_eq_gen n,
+   divScratchWords_eq_gen la lb, sqrtScratchWords_eq_gen n, (shl_large_guard_eq_gen W cap la rhs).1,
+   (shl_large_guard_eq_gen W cap la rhs).2, (memPow_sizes_eq_gen n).1, (memPow_sizes_eq_gen n).2⟩
 
 -- non-vacuity: canonical heap operands exist, reach the borrow/shrink and sign paths
 example : (TRepr.large [0, 0, 1]).Canon 64 ∧ (TRepr.large [1, 0, 1]).Canon 64 := by
